@@ -302,11 +302,16 @@ def judge_resolver(res, st, n, perm, mode, twice, tmpdir):
         comb = resolver.resolve(specs)
         if twice:
             first = observe_pipeline(comb)
+            d_first = observe_direct(comb)
             comb2 = resolver.resolve(specs)
+            # the earlier result used directly (apply / postprocess_query / finalize on the object) right after the later, equal one was composed
+            d_again = observe_direct(comb)
             got = observe_pipeline(comb2)
             again = observe_pipeline(comb) if len(perm) > 1 else first
             if again != first:
                 add_violation(res, f"resolver:first-result-changed-by-second-resolution:{mode}", case, first, again)
+            if d_again != d_first:
+                add_violation(res, f"resolver:first-result-applied-directly-changed-by-second-resolution:{mode}", case, d_first, d_again)
         else:
             got = observe_pipeline(comb)
     except Exception as e:
